@@ -430,6 +430,53 @@ fn cmd_check_stdin(prop: &str) -> i32 {
     0
 }
 
+/// The batch or sweep child died: regenerate the named run (generation never calls the parser),
+/// confirm in a child that it kills a process, minimise with one child per candidate, print a replay.
+fn cmd_minimise_isolated(args: &[String]) -> i32 {
+    let prop = arg(args, "--prop").unwrap_or("C07").to_string();
+    let seed: u64 = arg(args, "--seed").map(|s| s.parse().expect("--seed")).unwrap_or(1);
+    let recvs = schema::recvs();
+    let (sc, idx) = if let Some(i) = arg(args, "--sweep-index") {
+        let i: usize = i.parse().expect("--sweep-index");
+        let cases = sweep::cases(mode_for(&prop), recvs);
+        match cases.get(i) {
+            Some(c) => (c.clone(), format!("sweep{}", i)),
+            None => {
+                println!("{}", json!({"reproduced": false}));
+                return 0;
+            }
+        }
+    } else {
+        let index: u64 = arg(args, "--index").map(|s| s.parse().expect("--index")).unwrap_or(0);
+        (gen::generate(run_seed(seed, index), mode_for(&prop), recvs), index.to_string())
+    };
+    if !minimise::dies_in_child(&prop, &sc) {
+        println!("{}", json!({"reproduced": false}));
+        return 0;
+    }
+    let (min, steps) = minimise::minimise_with(&sc, 200, &mut |c| minimise::dies_in_child(&prop, c));
+    let mut doc = min.doc.clone();
+    let source = input::render(&mut doc);
+    let rp = Replay {
+        format: 1,
+        property: prop.clone(),
+        rule: "C07.R3".into(),
+        sim: "parse".into(),
+        verif_seed: Some(seed),
+        run_index: Some(idx),
+        scenario: min.clone(),
+        input_source: source,
+        expected: "the process survives (a value, an error, or the injected panic reaching the caller)".into(),
+        observed: "the child process running this scenario died by signal (abort on a panic inside a destructor during an unwind, or stack exhaustion)".into(),
+        detail: String::new(),
+        observed_digest: String::new(),
+        signature: json!({"rule": "C07.R3", "receiver": min.receiver}),
+        minimised: json!({"from": minimise::size(&sc), "to": minimise::size(&min), "steps": steps, "one_child_process_per_candidate": true}),
+    };
+    println!("{}", json!({"reproduced": true, "replay": rp}));
+    1
+}
+
 fn main() {
     let args: Vec<String> = std::env::args().collect();
     let code = match args.get(1).map(|s| s.as_str()) {
@@ -438,6 +485,7 @@ fn main() {
         Some("one") => cmd_one(&args),
         Some("replay") => cmd_replay(args.get(2).expect("replay FILE")),
         Some("check-stdin") => cmd_check_stdin(args.get(2).map(|s| s.as_str()).unwrap_or("C07")),
+        Some("minimise-isolated") => cmd_minimise_isolated(&args),
         _ => {
             eprintln!("usage: parsesim batch|sweep|one|replay ...");
             2
